@@ -103,6 +103,16 @@ void write_replay(const std::string &path, const Args &a, const Tape &canon, con
     std::replace(m.begin(), m.end(), '\n', ' ');
     f << "msg=" << m << "\n";
     for (auto &kv: xdata) f << kv.first << "=" << kv.second << "\n";
+    { // the query the case failed on, taken from the oracle's message ("... query=<key> ..."), unless the engine already named one
+        bool have = false;
+        for (auto &kv: xdata) have |= kv.first == "xquery";
+        auto p = m.find("query=");
+        if (!have && p != std::string::npos) {
+            auto e = m.find_first_of(" ,)", p + 6);
+            std::string q = m.substr(p + 6, e == std::string::npos ? std::string::npos : e - (p + 6));
+            if (!q.empty() && (isdigit((unsigned char) q[0]) || q[0] == '-')) f << "xquery=" << q << "\n";
+        }
+    }
     std::istringstream ds(desc);
     std::string line;
     while (std::getline(ds, line)) f << "# " << line << "\n";
@@ -338,6 +348,7 @@ int run_replay(const Args &a) {
     ctx.want_desc = true;
     ctx.workdir = a.workdir;
     Tape canon;
+    replay_xquery() = ctx.x("xquery");
     if (!warmups.empty()) {
         RunCtx w = ctx;
         w.xdata.clear();
